@@ -230,11 +230,78 @@ def fuzz(chk, b, bodies, tier):
     chk.cov["fuzz_total_execs"] = total
 
 
+def big_tree_model(rng, versions=40, entries=5200):
+    """Several versions of a directory whose tree object exceeds 1 MiB, plus a 1.2 MB commit message and tag."""
+    blobs = [G.Blob(b"b%d" % i) for i in range(7)]
+    prev = None
+    m = G.Model()
+    for v in range(versions):
+        ents = [G.Entry(G.FILE, b"file-%06d-%s.txt" % (j, b"y" * 180), blobs[(j + v * (j % 11 == 0)) % 7]) for j in range(entries)]
+        big = G.Tree(ents, presorted=True)
+        top = G.Tree([G.Entry(G.TREE, b"big", big), G.Entry(G.FILE, b"v", G.Blob(b"v%d" % v))])
+        prev = G.Commit(top, [prev] if prev else [], cts=1600000000 + v,
+                        msg=(b"big message\n" + b"z" * 1200000 + b"\n") if v == 1 else b"v%d\n" % v)
+    m.refs["refs/heads/main"] = prev
+    m.refs["refs/tags/bigtag"] = G.Tag(prev, name=b"bigtag", msg=b"t" * 1100000 + b"\n")
+    return m
+
+
+def end_to_end(chk, b, rng, tier):
+    """What the parsers deliver when fed by the real `git cat-file --batch` stream (objects of a few bytes up to > 1 MiB,
+    read back to back, consumer and reader goroutines under different schedules) must add up to the model's numbers."""
+    from .. import oracle as O
+    from .. import parse_out as P
+    sz = b.sizer()
+    scratch = b.scratchdir()
+    models = [("big-trees", big_tree_model(rng))]
+    for i in range(2 if tier == "quick" else 10):
+        models.append(("random-%d" % i, G.random_model(rng, size="medium", hostile_names=True)))
+    nrun = 0
+    for name, m in models:
+        d = os.path.join(scratch, "e2e-" + name)
+        gitdir = G.write_model(m, d)
+        ex = O.compute(list(m.refs.values()))
+        for k in range(10 if name == "big-trees" else 3):
+            r = R.sizer(sz, gitdir, ["--json", "--no-progress", "--names=" + ["full", "none", "hash"][k % 3]],
+                        env={"GOMAXPROCS": ["16", "2", "1", "4", "3"][k % 5]}, tmpdir=scratch, timeout=300)
+            chk.count()
+            nrun += 1
+            if r.rc != 0 or r.timed_out:
+                chk.violation("C16/end-to-end/run-failed/" + name.split("-")[0], {"repo": name, "rc": r.rc, "stderr": r.err[-400:]})
+                continue
+            js, _ = P.parse_json(r.out)
+            bad = O.compare_numeric(ex, js or {}, [k_ for k_ in O.CAPS if k_ != "reference_count"])
+            if bad:
+                chk.violation("C16/end-to-end/values-differ/" + name.split("-")[0], {"repo": name, "diffs": bad[:4]})
+        if name == "big-trees":
+            # the same stream under the race detector: the bytes handed to the parsers must not be written by the reader
+            # goroutine while they are parsed (happens-before evidence, independent of how the schedule falls)
+            szr = b.sizer(race=True)
+            logdir = os.path.join(scratch, "e2e-race")
+            os.makedirs(logdir, exist_ok=True)
+            for k in range(8):
+                r = R.sizer(szr, gitdir, ["--json", "--no-progress"], env={"GORACE": "halt_on_error=0 log_path=%s/race" % logdir,
+                                                                          "GOMAXPROCS": ["8", "2", "16", "4"][k % 4]}, tmpdir=scratch, timeout=600)
+                chk.count()
+                nrun += 1
+            nraces = 0
+            for fn in os.listdir(logdir):
+                txt = open(os.path.join(logdir, fn), "rb").read()
+                if b"WARNING: DATA RACE" in txt:
+                    nraces += txt.count(b"WARNING: DATA RACE")
+                    chk.violation("C16/end-to-end/data-race-on-object-bytes", {"report": txt[:2500]})
+            chk.cov["end_to_end_race_reports"] = nraces
+        shutil.rmtree(d, ignore_errors=True)
+    chk.cov["end_to_end_runs"] = nrun
+    chk.nontrivial("end-to-end")
+
+
 def run(chk, b, tier):
     rng = random.Random("C16|%d" % R.SEED)
     drv = b.apidrv()
     bodies = differential(chk, drv, rng, tier)
     listing_truncations(chk, drv, b, rng, tier)
+    end_to_end(chk, b, rng, tier)
     fuzz(chk, b, bodies, tier)
     chk.cov["rule"] = ("(1) differential: every tree/commit/tag body of generated models (hostile names, gpgsig / mergetag "
                        "continuation lines containing tree/parent/object lines, messages imitating headers, missing message) "
